@@ -13,6 +13,7 @@ from pathlib import Path
 wt = Path(sys.argv[1]); k = sys.argv[2]; prop = sys.argv[3]
 run_tests = "--tests" in sys.argv
 tier = sys.argv[sys.argv.index("--tier") + 1] if "--tier" in sys.argv else "quick"
+tag = sys.argv[sys.argv.index("--tag") + 1] if "--tag" in sys.argv else ""
 env = dict(os.environ, PYTHONPATH=str(wt / "src"))
 def sh(cmd, **kw):
     return subprocess.run(cmd, shell=True, capture_output=True, text=True, **kw)
@@ -43,7 +44,7 @@ finally:
 r2 = sh(f"/venv/bin/python {demo}", env=env, cwd=wt)
 meta["demo_restored_exit"] = r2.returncode
 meta["detected"] = meta.get("check_exit") == 1 and meta["check_violation_lines"] > 0
-out = Path("/verif/seeded") / f"{prop}-{wt.name}-m{k}"
+out = Path("/verif/seeded") / f"{prop}-{wt.name}-{tag}m{k}"
 out.mkdir(parents=True, exist_ok=True)
 shutil.copy(patch, out / "patch.diff"); shutil.copy(demo, out / "demo.py")
 md = wt / "MUTANTS.md"
